@@ -838,6 +838,7 @@ func (l *lockedBuf) Bytes() []byte {
 type fanout [2]slog.Handler
 
 func (f fanout) Enabled(ctx context.Context, l slog.Level) bool { return true }
+
 var fanoutMu sync.Mutex // both handlers must see records in the same order
 
 func (f fanout) Handle(ctx context.Context, r slog.Record) error {
